@@ -54,12 +54,10 @@ struct Codec<std::tuple<Types...>>
 
   static auto decode_arg(std::byte*& buffer)
   {
-    std::tuple<decltype(Codec<Types>::decode_arg(buffer))...> arg;
-
-    std::apply([&buffer](auto&... elems)
-               { ((elems = Codec<std::decay_t<decltype(elems)>>::decode_arg(buffer)), ...); }, arg);
-
-    return arg;
+    // Each element is decoded with the codec of the type that was encoded, not of the decoded
+    // type, e.g. utility::StringRef decodes to a std::string_view but has its own layout.
+    // Braced initialisation guarantees that the elements are decoded from left to right
+    return std::tuple<decltype(Codec<Types>::decode_arg(buffer))...>{Codec<Types>::decode_arg(buffer)...};
   }
 
   static void decode_and_store_arg(std::byte*& buffer, DynamicFormatArgStore* args_store)
